@@ -1000,6 +1000,8 @@ def pad(tensor, padding, value=0.0):
             "The number of paddings should not exceed the number of dimensions of the tensor.")
 
     if tensor.is_ttm:
+        # every core carries the extra rank channel of the diagonal blocks: modes without a padding get (0, 0)
+        padding = ((0, 0),) * (len(tensor.N) - len(padding)) + tuple(padding)
         cores = [c.clone() for c in tensor.cores]
         for pad, k in zip(reversed(padding), reversed(range(len(tensor.N)))):
             cores[k] = tnf.pad(cores[k], (1 if k < len(tensor.N)-1 else 0, 1 if k < len(tensor.N) -
